@@ -202,4 +202,20 @@ PROPS = {
             det("exhaustive", "^TestC17Exhaustive$", quick={"shards": 8}, thorough={"shards": 16, "timeout": 3000}),
         ],
     },
+    "C09": {
+        "level": "fault_enumeration",
+        "level_text": "for every generated unit of sections, every single-bit corruption position of pointer_field, sections and stuffing is "
+                      "enumerated (plus sampled byte substitutions, bursts, truncations and insertions) and the Demuxer's outcome is compared with "
+                      "an independent section walker with a bitwise CRC; the mux side checks every table packet of generated Muxer histories",
+        "level_note": "trusts harness/ref (section walker, bitwise CRC, section encoder); a corruption that the reference decoder itself accepts "
+                      "(CRC collision or another valid section) is not judged and is counted",
+        "technique": "exhaustive single-bit fault enumeration per generated section + rapid histories, differential against an independent CRC/section walker",
+        "rule": "rapid-generated units of 1-2 sections of the six table types x all single-bit flips + sampled multi-bit corruptions; Muxer histories "
+                "with descriptor-rich PMTs; non-trivial = every corruption case / a PMT with >= 2 descriptors; distinct by unit payload / history",
+        "assumptions": ["WriteTables is expected to succeed exactly when the reference PMT fits one packet and the PCR PID is a configured stream"],
+        "units": [
+            rap("demux_corruption", "^TestC09Demux$", 250, 1500, 4, 16),
+            rap("mux_sections", "^TestC09Mux$", 1500, 15000, 2, 16),
+        ],
+    },
 }
